@@ -984,11 +984,12 @@ func SplitMrt(data []byte, atEOF bool) (advance int, token []byte, err error) {
 	// Length octets (for the *_ET types the microsecond timestamp is part of
 	// them), so only the Length field is needed to frame it.
 	recLen := binary.BigEndian.Uint32(data[8:MRT_COMMON_HEADER_LEN])
-	totlen := int(recLen + MRT_COMMON_HEADER_LEN)
-	if len(data) < totlen { // need to read more
+	// computed in 64 bits: recLen+12 wraps around in uint32 for recLen >= 2^32-12
+	totlen := uint64(recLen) + MRT_COMMON_HEADER_LEN
+	if uint64(len(data)) < totlen { // need to read more
 		return 0, nil, nil
 	}
-	return totlen, data[:totlen], nil
+	return int(totlen), data[:totlen], nil
 }
 
 func ParseBody(data []byte, h *MRTHeader) (*MRTMessage, error) {
